@@ -118,4 +118,10 @@ MUTANTS = [
     F("C03", "thread-map name read as PaddedString (shared entry layout)", "kd_buf_parser.py",
       "'process' / FixedSized(0x14, CString('utf8')),", "'process' / PaddedString(0x14, 'utf8'),", "R9",
       more=[("kd_buf_parser.py", "from construct import Adapter,", "from construct import PaddedString, Adapter,")]),
+    F("C03", "every block's payload is read as a property list before its tag is looked at", "kd_buf_parser.py",
+      "        for block in additional_data:\n            if block.tag == TRACEV3_DYLD_MODULES:\n                data = plistlib.loads(block.data)\n",
+      "        for block in additional_data:\n            data = plistlib.loads(block.data) if block.data[:6] == b'bplist' or True else None\n            if block.tag == TRACEV3_DYLD_MODULES:\n", "R11"),
+    N("C03", "blocks of unknown tags skipped up front, the last branch an else", "kd_buf_parser.py",
+      "        for block in additional_data:\n            if block.tag == TRACEV3_DYLD_MODULES:\n",
+      "        for block in additional_data:\n            if block.tag not in (TRACEV3_DYLD_MODULES, TRACEV3_TRACE_CODES, TRACEV3_PROCESSES, TRACEV3_KERNEL_EXTENSIONS, TRACEV3_IMAGES, TRACEV3_LOG_EVENTS, TRACEV3_LOG_STRINGS):\n                continue\n            if block.tag == TRACEV3_DYLD_MODULES:\n"),
 ]
